@@ -3115,3 +3115,200 @@ func ruleBlockEncodePath(c *Ctx, p *core.Program, rule string) {
 	c.R.Floor(rule, cfg, n, 2)
 	_ = bad
 }
+
+// Rules added in the short seeding round 15.
+
+// ruleWrapperHelperKeepsReceiver (C19.helper-receiver): Array() / Nullable() / LowCardinality() wrap the column they are called on.
+func ruleWrapperHelperKeepsReceiver(c *Ctx, p *core.Program, rule string) {
+	c.R.Rule(rule, "the helper methods Array / Nullable / LowCardinality of a column type return a wrapper built over their receiver: the value they return depends on the receiver - ColAuto.Infer infers the element first (time zone, precision, enum definition) and then calls the helper by reflection, so a helper that returns a wrapper over a fresh column drops what was inferred while Infer still reports success")
+	cfg := p.Cfg.Name
+	n := 0
+	for _, ct := range columnTypes(p) {
+		for _, mn := range []string{"Array", "Nullable", "LowCardinality"} {
+			fn := methodOf(p, ct, mn)
+			if fn == nil || fn.Blocks == nil || len(fn.Params) != 1 || fn.Signature.Results().Len() != 1 {
+				continue
+			}
+			n++
+			key := ct.Obj().Name() + "." + mn
+			recv := fn.Params[0]
+			uses := false
+			for _, b := range fn.Blocks {
+				ret, ok := b.Instrs[len(b.Instrs)-1].(*ssa.Return)
+				if !ok || len(ret.Results) != 1 {
+					continue
+				}
+				if core.DependsOn(ret.Results[0], func(v ssa.Value) bool { return v == ssa.Value(recv) }, true) || core.DependsOnResults(ret.Results[0], func(v ssa.Value) bool { return v == ssa.Value(recv) }) {
+					uses = true
+				}
+			}
+			// a composite literal: the receiver is stored into a field of the returned allocation
+			if !uses && recv.Referrers() != nil {
+				for _, r := range *recv.Referrers() {
+					if st, ok := r.(*ssa.Store); ok && st.Val == ssa.Value(recv) {
+						uses = true
+					}
+					if mi, ok := r.(*ssa.MakeInterface); ok && mi.Referrers() != nil && len(*mi.Referrers()) > 0 {
+						uses = true
+					}
+					if _, ok := r.(ssa.CallInstruction); ok {
+						uses = true
+					}
+				}
+			}
+			if uses {
+				c.R.Ok(rule, key, cfg, p.Pos(fn.Pos()), "the wrapper is built over the receiver")
+			} else {
+				c.R.Bad(rule, key, cfg, p.Pos(fn.Pos()), "the helper does not use its receiver: the wrapper it returns holds a fresh element column, not the one that was configured or inferred")
+			}
+		}
+	}
+	c.R.Count("wrapper helper methods", n)
+	c.R.Floor(rule, cfg, n, 30)
+}
+
+// ruleNormalizeKeepsBlanks (C18.normalize): type normalisation touches only the blanks after commas.
+func ruleNormalizeKeepsBlanks(c *Ctx, p *core.Program, rule string) {
+	c.R.Rule(rule, "ColumnType.normalizeCommas (the whitespace normalisation Conflicts compares with) removes blanks only next to commas: it calls nothing that deletes every blank of the string (strings.ReplaceAll / Replace / Fields / Map): the blank between the name and the type of a named tuple element is part of the type, `Tuple(U Int64)` is not `Tuple(UInt64)`")
+	cfg := p.Cfg.Name
+	fn := p.Method(core.PkgProto, "ColumnType", "normalizeCommas")
+	if !c.must(p, "proto.ColumnType.normalizeCommas", fn != nil) {
+		return
+	}
+	bad := false
+	for g := range core.StaticReach(fn, 1) {
+		if g.Blocks == nil || pkgOf(g) == nil || pkgOf(g).Path() != core.PkgProto {
+			continue
+		}
+		for _, call := range core.Calls(g) {
+			f := core.CalleeFunc(call)
+			if f == nil || f.Pkg() == nil || f.Pkg().Path() != "strings" {
+				continue
+			}
+			switch f.Name() {
+			case "ReplaceAll", "Replace", "Fields", "Map", "NewReplacer":
+				bad = true
+				c.R.Bad(rule, core.CallKey(g, call), cfg, p.Pos(call.Pos()), "the normalisation rewrites the whole string with strings."+f.Name()+": blanks that separate a tuple element's name from its type disappear and different types compare equal")
+			}
+		}
+	}
+	if !bad {
+		c.R.Ok(rule, core.FuncName(fn), cfg, p.Pos(fn.Pos()), "no whole-string blank removal")
+	}
+}
+
+// rulePrepareAlwaysRebuilds (C09.prepare-rebuilds): Prepare never trusts what an earlier round left.
+func rulePrepareAlwaysRebuilds(c *Ctx, p *core.Program, rule string) {
+	c.R.Rule(rule, "ColLowCardinality.Prepare reaches a success exit only after it has cleared the dictionary (clear / delete on the value map, or Reset of the index column): an `already prepared` shortcut keyed on lengths sends the previous round's keys when a streamed round overwrites the values in place with the same row count")
+	cfg := p.Cfg.Name
+	fn := p.Method(core.PkgProto, "ColLowCardinality", "Prepare")
+	if !c.must(p, "(*proto.ColLowCardinality).Prepare", fn != nil) {
+		return
+	}
+	isClear := func(in ssa.Instruction) bool {
+		call, ok := in.(ssa.CallInstruction)
+		if !ok {
+			return false
+		}
+		if bi, ok := call.Common().Value.(*ssa.Builtin); ok && (bi.Name() == "clear" || bi.Name() == "delete") {
+			return true
+		}
+		cc := call.Common()
+		if cc.IsInvoke() && cc.Method.Name() == "Reset" {
+			return true
+		}
+		if f := core.CalleeFunc(call); f != nil && f.Name() == "Reset" {
+			return true
+		}
+		// a package helper that clears (resetDict)
+		if g := core.StaticFn(call); g != nil && g.Blocks != nil && pkgOf(g) != nil && pkgOf(g).Path() == core.PkgProto {
+			for _, hc := range core.Calls(g) {
+				if bi, ok := hc.Common().Value.(*ssa.Builtin); ok && (bi.Name() == "clear" || bi.Name() == "delete") {
+					return true
+				}
+			}
+			if g.Synthetic != "" {
+				return false
+			}
+		}
+		return false
+	}
+	w := core.ReachAvoiding(core.Entry(fn), func(in ssa.Instruction) bool {
+		r, ok := in.(*ssa.Return)
+		return ok && defaultSuccess(fn, r)
+	}, isClear, nilErrEdge)
+	if len(w) > 0 {
+		c.R.Bad(rule, core.FuncName(fn), cfg, p.Pos(w[0].At.Pos()), "Prepare can succeed without rebuilding the dictionary: keys of an earlier round are encoded for the current values", p.TrailString(w[0])...)
+	} else {
+		c.R.Ok(rule, core.FuncName(fn), cfg, p.Pos(fn.Pos()), "every success path clears the dictionary first")
+	}
+}
+
+// ruleStrLenSource (C06.strlen-source): a string length reaches the allocation only through the reader that rejects negative lengths.
+func ruleStrLenSource(c *Ctx, p *core.Program, rule string) {
+	c.R.Rule(rule, "in Reader.StrRaw (behind Str, StrBytes, StrAppend: every protocol string and every column name and type) the size handed to Buffer.Ensure / make comes from Reader.StrLen, the one reader that refuses a length that is negative after the conversion to int - read with Int or UVarInt directly, a 10-byte varint of 2^63 or more reaches make() as a negative number and the decoder panics (this is a different clause from the known finding at the same site, which is about the missing upper cap)")
+	cfg := p.Cfg.Name
+	fn := p.Method(core.PkgProto, "Reader", "StrRaw")
+	if !c.must(p, "(*proto.Reader).StrRaw", fn != nil) {
+		return
+	}
+	n := 0
+	isStrLen := func(v ssa.Value) bool {
+		cl, ok := v.(*ssa.Call)
+		if !ok {
+			return false
+		}
+		f := core.CalleeFunc(cl)
+		return f != nil && core.IsMethod(f, core.PkgProto, "Reader", "StrLen")
+	}
+	type sink struct {
+		in   ssa.Instruction
+		size ssa.Value
+	}
+	sinksOf := func(g *ssa.Function) []sink {
+		var out []sink
+		for _, b := range g.Blocks {
+			for _, in := range b.Instrs {
+				switch x := in.(type) {
+				case *ssa.MakeSlice:
+					if _, isConst := intConstOf(x.Len); !isConst {
+						out = append(out, sink{in, x.Len})
+					}
+				case *ssa.Call:
+					if f := core.CalleeFunc(x); f != nil && core.IsMethod(f, core.PkgProto, "Buffer", "Ensure") {
+						out = append(out, sink{in, x.Call.Args[1]})
+					}
+				}
+			}
+		}
+		return out
+	}
+	all := sinksOf(fn)
+	// the allocation may live in a helper StrRaw calls with the length (fill(n), readStr(n)): the argument is judged
+	for _, call := range core.Calls(fn) {
+		g := core.StaticFn(call)
+		if g == nil || g.Blocks == nil || pkgOf(g) == nil || pkgOf(g).Path() != core.PkgProto {
+			continue
+		}
+		for _, sk := range sinksOf(g) {
+			for pi, prm := range g.Params {
+				if stripConv(sk.size) == ssa.Value(prm) && pi < len(call.Common().Args) {
+					all = append(all, sink{call.(ssa.Instruction), call.Common().Args[pi]})
+				}
+			}
+		}
+	}
+	for _, sk := range all {
+		{
+			in, size := sk.in, sk.size
+			n++
+			key := sprintf("%s/size#%d", core.FuncName(fn), n)
+			if core.DependsOn(size, isStrLen, false) {
+				c.R.Ok(rule, key, cfg, p.Pos(in.Pos()), "sized by Reader.StrLen")
+			} else {
+				c.R.Bad(rule, key, cfg, p.Pos(in.Pos()), "the allocation is sized by a length that did not pass Reader.StrLen: a negative length is not refused before make()")
+			}
+		}
+	}
+	c.R.Floor(rule, cfg, n, 1)
+}
